@@ -86,8 +86,7 @@ def coq_make(targets, timeout=1500):
 
 def coq_static(timeout=1500):
     """the hand-written development (no dependency on generated files)"""
-    import glob
-    ts = sorted("theories/" + os.path.basename(p) + "o" for p in glob.glob(os.path.join(COQ, "theories", "*.v")))
+    ts = [l.strip() + "o" for l in open(os.path.join(COQ, "_CoqProject")) if l.startswith("theories/") and l.strip().endswith(".v")]
     return coq_make(ts, timeout)
 
 
